@@ -14,7 +14,10 @@ package main
 // node's call id, (4) convert to invocation data and back to the same text,
 // and (5) for stage forks carry exactly the arguments mrp delivered to the
 // fork's first job (`_args` of split, else of the main chunk), compared as
-// JSON trees, with no argument left split.
+// JSON trees, with no argument left split.  (6) The model of Fork.writeInvocation
+// (c16_fork.go): per fork the inputs Node.resolveInputs(forkId, true) returns are
+// serialised in their dynamic types and the driver's invocationOf / forkCompiles /
+// printFork are compared with the real file: built, compiles, text bytes, stage data.
 //
 // Runs happen in a child process of this binary (pseudo-property "C16W"): the
 // real runtime may end the process.
@@ -63,6 +66,7 @@ type c16TARes struct {
 	Hist       map[string]int `json:"hist"`
 	Fails      []c16TAFail    `json:"fails,omitempty"`
 	Sample     string         `json:"sample,omitempty"`
+	Models     []*c16TAModel  `json:"models,omitempty"`
 }
 
 func init() { register("C16W", c16Worker) }
@@ -149,6 +153,20 @@ func c16TARunOne(c *Ctx, spec *c16TASpec, idx int) *c16TARes {
 			}
 			text := string(raw)
 			res.Checked++
+			model := c16TAModelOf(run, n, f, callable, res.Hist)
+			if model != nil {
+				model.Text = text
+				model.CallId = callId
+				model.DecId = n.Callable
+				model.Kind = n.Kind
+				if n.Kind == "pipeline" {
+					model.Kind = "top"
+					if strings.Count(n.Fqname, ".") > 2 {
+						model.Kind = "sub"
+					}
+				}
+				res.Models = append(res.Models, model)
+			}
 			res.Hist["invocation_"+n.Kind]++
 			if res.Sample == "" && len(f.Parts) > 0 {
 				res.Sample = n.Fqname + "/" + f.Id + ":\n" + text
@@ -163,6 +181,9 @@ func c16TARunOne(c *Ctx, spec *c16TASpec, idx int) *c16TARes {
 			if pan := c16Recover(func() {
 				_, _, ast, cerr = syntax.ParseSourceBytes(raw, filepath.Join(dir, "fork_invocation.mro"), mroPaths, false)
 			}); pan != nil || cerr != nil || ast == nil || ast.Call == nil {
+				if model != nil {
+					model.CompErr = fmt.Sprintf("%v %v", pan, cerr)
+				}
 				key := "C16:fork-invocation-does-not-compile"
 				what := "the _invocation mrp recorded for the fork does not compile"
 				if n.Kind == "pipeline" && strings.Count(n.Fqname, ".") > 2 {
@@ -184,6 +205,9 @@ func c16TARunOne(c *Ctx, spec *c16TASpec, idx int) *c16TARes {
 				}
 				fail(key, fmt.Sprintf("%s: %v %v", what, pan, cerr), n, f, text, nil)
 				continue
+			}
+			if model != nil {
+				model.Compiles = true
 			}
 			if strings.HasPrefix(strings.TrimSpace(text[strings.Index(text, "\n\n")+1:]), "map call") {
 				res.Hist["invocation_is_map_call"]++
@@ -241,6 +265,9 @@ func c16TARunOne(c *Ctx, spec *c16TASpec, idx int) *c16TARes {
 			var delivered map[string]json.RawMessage
 			if json.Unmarshal(job.Args, &delivered) != nil {
 				continue
+			}
+			if model != nil {
+				model.ArgsJSON = string(job.Args)
 			}
 			res.ArgsCmp++
 			for _, p := range callable.GetInParams().List {
@@ -421,10 +448,91 @@ map call P(
 )
 `
 
+// a second fixed program: a sub-pipeline (LEAF) below a mapped pipeline (MID) whose binding has the
+// split of the enclosing map call INSIDE an array literal, and a pipeline mapped over an empty array – the shapes of known finding
+// C16-N6, so that every run exercises the negative side of the model's `forkCompiles`.
+const c16TAFixedDefs2 = `stage SUM(
+    in  int[] items,
+    in  bool  enable,
+    out int   total,
+    src comp  "sum",
+)
+
+pipeline LEAF(
+    in  int[] items,
+    in  bool  enable,
+    out int   total,
+)
+{
+    call SUM(
+        items  = self.items,
+        enable = self.enable,
+    )
+
+    return (
+        total = SUM.total,
+    )
+}
+
+pipeline MID(
+    in  int  x,
+    in  bool enable,
+    out int  total,
+)
+{
+    call LEAF(
+        items  = [
+            13,
+            self.x,
+        ],
+        enable = self.enable,
+    )
+
+    return (
+        total = LEAF.total,
+    )
+}
+
+pipeline OUTER(
+    in  int[]  xs,
+    in  bool[] none,
+    out int[]  totals,
+    out int[]  nothing,
+)
+{
+    map call MID(
+        x      = split self.xs,
+        enable = true,
+    )
+
+    map call MID as EMPTY(
+        x      = 1,
+        enable = split self.none,
+    )
+
+    return (
+        totals  = MID.total,
+        nothing = EMPTY.total,
+    )
+}
+`
+
+const c16TAFixedCall2 = `@include "defs.mro"
+
+call OUTER(
+    xs   = [
+        1,
+        2,
+    ],
+    none = [],
+)
+`
+
 func (x *c16Runner) tierA(nprog int) {
 	c, r := x.c, x.r
-	specs := []*c16TASpec{{Name: "fixed-top-level-map-call", Defs: c16TAFixedDefs, Call: c16TAFixedCall, Seed: c.Seed, Top: "map-array"}}
-	for i := 0; len(specs) < nprog+1 && i < nprog*4; i++ {
+	specs := []*c16TASpec{{Name: "fixed-top-level-map-call", Defs: c16TAFixedDefs, Call: c16TAFixedCall, Seed: c.Seed, Top: "map-array"},
+		{Name: "fixed-sub-pipeline-forks", Defs: c16TAFixedDefs2, Call: c16TAFixedCall2, Seed: c.Seed, Top: "plain"}}
+	for i := 0; len(specs) < nprog+2 && i < nprog*4; i++ {
 		src, _ := GenProgram(c.Rng, GenOpts{})
 		defs, call, ok := c16SplitProgram(src)
 		if !ok {
@@ -488,7 +596,7 @@ func (x *c16Runner) tierA(nprog int) {
 		r.hist("TA_final_" + strings.SplitN(res.Final, ":", 2)[0])
 		if res.Final == "compile-error" {
 			r.hist("TA_program_rejected")
-			if spec.Top == "plain" || i == 0 {
+			if spec.Top == "plain" || i < 2 {
 				r.note("Tier A: generated program does not compile: %s", res.Compile)
 			}
 			continue
@@ -506,6 +614,10 @@ func (x *c16Runner) tierA(nprog int) {
 		if i == 0 && res.Sample != "" {
 			r.sample(map[string]interface{}{"tier_a_invocation": res.Sample})
 		}
+		for _, m := range res.Models {
+			x.forkModel(spec, m.DecId, m)
+		}
+		x.flush()
 		for _, f := range res.Fails {
 			r.violate(Violation{Kind: "property", Key: f.Key, What: f.What,
 				Input: map[string]interface{}{"defs.mro": spec.Defs, "invocation.mro": spec.Call, "node": f.Node, "fork": f.Fork,
